@@ -425,6 +425,8 @@ class Interp:
             return a.t
         if isinstance(a, str):
             return z3.IntVal(self.name_id(a))
+        if isinstance(a, SStr) and len(a.parts) == 1 and isinstance(a.parts[0], tuple) and a.parts[0][0] == 'int':
+            return STR_OF_INT(a.parts[0][1])        # str(<int>) used as a name: an uninterpreted name per integer
         raise Unsupported(f'expected int, got {a!r}')
 
     _names = {}
@@ -438,6 +440,10 @@ class Interp:
 
     def as_idl(self, a, elem):
         if isinstance(a, SV) and a.kind == 'idl':
+            if a.meta == 'int' and elem in ('EVar', 'SVar'):
+                raise Unsupported('a tuple of raw ints where a tuple of EVar/SVar is expected (not representable as a pattern)')
+            return a.t
+        if isinstance(a, SV) and a.kind == 'intlist':
             return a.t
         if isinstance(a, (tuple, list)):
             xs = []
@@ -1009,6 +1015,8 @@ class Interp:
             if ctor_of(t) == 'pnil':
                 return out
             raise Unsupported('iteration over a symbolic map without loop contract')
+        if isinstance(it, _SymRange):
+            raise Unsupported('symbolic range')
         if isinstance(it, SV) and it.kind in ('str', 'intlist'):
             raise Unsupported('iteration over a symbolic string/list without loop contract')
         if isinstance(it, SV) and it.kind == 'idl':
@@ -1441,6 +1449,19 @@ class Interp:
             if not self.ctx.branch(z3.And(i >= 0, i < spec.ptl_len(o.t)), 'index in range'):
                 raise SymRaise('IndexError')
             return SV(PTR_NTH(o.t, i), 'pterm')
+        if isinstance(o, SV) and o.kind in ('bytes', 'intlist', 'idl') and not isinstance(k, slice):
+            i = self.as_int(k)
+            if self.ctx.branch(i < 0, 'negative index'):
+                raise Unsupported('negative index into a symbolic sequence')
+            n = spec.il_len(o.t)
+            self.ctx.lemma_fact('il_len_zero', z3.And(n >= 0, (n == 0) == IDL.is_('inil', o.t)))
+            if not self.ctx.branch(i < n, 'index in range'):
+                raise SymRaise('IndexError')
+            return SV(spec.il_nth(o.t, i), 'int')
+        if isinstance(o, SV) and o.kind == 'pclaims' and isinstance(k, int) and k == 0:
+            if not self.ctx.branch(PCLs.is_('pccons', o.t), 'a claim is left'):
+                raise SymRaise('IndexError')
+            return Obj(self.repo.cls('proof_generation.claim', 'Claim'), {'pattern': SV(PCLs.get('pccons', 'pchd', o.t), 'ppat')})
         if isinstance(o, SV) and o.kind == 'pmap':
             ki = self.as_int(k)
             if not self.ctx.branch(spec.phas(o.t, ki), 'key present'):
@@ -1482,6 +1503,8 @@ class Interp:
                 if cn is None or name not in FIELDS[cn]:
                     raise SymRaise('AttributeError', name)
                 return self.field(o, cn, name)
+            if not any(self.repo.cls(PATTERN_MODULE, c).find_method(name) is not None for c in (['Pattern'] + list(PCTORS))):
+                raise SymRaise('AttributeError', name)       # e.g. `.conclusion` of a Pattern where a Proved was expected
             return FamilyMethod(o, name)
         if isinstance(o, Obj):
             if name in o.attrs:
@@ -1599,11 +1622,24 @@ class Interp:
             it = self.eval(g.iter, env, module, fn)
             if isinstance(it, SV) and it.kind == 'idl':
                 if isinstance(e.elt, ast.Attribute) and e.elt.attr == 'name' and isinstance(e.elt.value, ast.Name) and e.elt.value.id == g.target.id:
-                    return SV(it.t, 'idl')
+                    if it.meta == 'int':
+                        raise SymRaise('AttributeError', "'int' object has no attribute 'name'")
+                    return SV(it.t, 'idl', 'int')
                 raise Unsupported('comprehension over a symbolic tuple')
         return list(self.comp(e, env, module, fn, lambda en: self.eval(e.elt, en, module, fn)))
 
     def e_GeneratorExp(self, e, env, module, fn):
+        if len(e.generators) == 1 and not e.generators[0].ifs and isinstance(e.generators[0].target, ast.Name):
+            g = e.generators[0]
+            it = self.eval(g.iter, env, module, fn)
+            if isinstance(it, SV) and it.kind == 'idl':
+                el = e.elt
+                if it.meta == 'int' and isinstance(el, ast.Call) and isinstance(el.func, ast.Name) and el.func.id in ('EVar', 'SVar') and len(el.args) == 1 \
+                        and not el.keywords and isinstance(el.args[0], ast.Name) and el.args[0].id == g.target.id:
+                    c = self.eval(el.func, env, module, fn)
+                    if isinstance(c, PyClass) and c.is_pattern():
+                        return SV(it.t, 'idl', el.func.id)       # (EVar(x) for x in ids): the same ids, now as variables
+                raise Unsupported('generator over a symbolic tuple')
         return _Iter(list(self.comp(e, env, module, fn, lambda en: self.eval(e.elt, en, module, fn))))
 
     def e_SetComp(self, e, env, module, fn):
@@ -1661,6 +1697,18 @@ class Interp:
             return self.call_family(f.selfv, f.name, args, kwargs)
         if isinstance(f, _SVMethod):
             return f.call(self, args, kwargs)
+        if isinstance(f, _Enum) and len(args) == 1:
+            # Enum(value): the member with that value, ValueError otherwise
+            v = args[0]
+            if isinstance(v, _EnumVal):
+                return v
+            for n, mv in f.members.items():
+                if isinstance(v, SV):
+                    if self.ctx.branch(self.as_int(v) == mv, f'enum value is {n}'):
+                        return f.member(n)
+                elif v == mv:
+                    return f.member(n)
+            raise SymRaise('ValueError', f'not a valid {f.name}')
         if isinstance(f, Obj):
             m = f.cls.find_method('__call__')
             if m is not None:
@@ -1701,6 +1749,19 @@ class Interp:
         return self.call_function(m, [selfv] + list(args), kwargs)
 
     def construct(self, cls, args, kwargs):
+        if any(b in ('Enum', 'IntEnum') for b in cls.base_names) and len(args) == 1 and not kwargs:
+            # Enum(value): members are modelled by their values; a value that is no member is a ValueError
+            v = args[0]
+            for n, node in cls.class_attrs.items():
+                mv = self.eval(node, Env(), cls.module)
+                if not isinstance(mv, int):
+                    continue
+                if isinstance(v, SV):
+                    if self.ctx.branch(self.as_int(v) == mv, f'enum value is {n}'):
+                        return mv
+                elif v == mv:
+                    return mv
+            raise SymRaise('ValueError', f'not a valid {cls.name}')
         if cls.is_pattern() and cls.name in PCTORS:
             fs = FIELDS[cls.name]
             vals = list(args)
@@ -1989,7 +2050,8 @@ class _SVMethod:
         raise Unsupported(f'method {n} on {type(o).__name__}')
 
 
-PTR_NTH = z3.Function('ptl_nth_front', PTL, Int, PTerm)   # element at index i from the front (only its machine-side view is constrained)
+STR_OF_INT = z3.Function('str_of_int', Int, Int)
+PTR_NTH = spec.ptl_nth_front
 ISSPACE = z3.Function('isspace', Int, Bool)    # str.isspace on one character (uninterpreted: the spec uses the same predicate)
 
 
@@ -2047,6 +2109,8 @@ def _b_len(it, args, kw):
 
 
 def _b_tuple(it, args, kw):
+    if args and isinstance(args[0], SV) and args[0].kind in ('idl', 'intlist'):
+        return SV(args[0].t, 'idl', args[0].meta if args[0].kind == 'idl' else 'int')
     return tuple(it.iterate(args[0])) if args else ()
 
 
@@ -2138,8 +2202,15 @@ def _b_all(it, args, kw):
 
 def _b_range(it, args, kw):
     if any(isinstance(a, SV) for a in args):
+        if len(args) == 1:
+            return _SymRange(args[0])          # only a loop under contract can run over it
         raise Unsupported('symbolic range')
     return list(range(*args))
+
+
+class _SymRange:
+    def __init__(self, n):
+        self.n = n
 
 
 def _b_reversed(it, args, kw):
